@@ -869,6 +869,9 @@ def post_batch(tier: str, seed: int, total: dict):
         with open(path, "w") as f:
             _json.dump({"property": PROP, "kind": "real ProcessPoolExecutor run (nondeterministic: not replayable by seed)", "spec": p["spec"],
                         "problem": p["problem"], "reproduce": "python -c 'from sim import c18_parproc as m, json; print(m.real_pool_run(json.load(open(PATH))[\"spec\"]))'"}, f, indent=1)
-        direct.append({"signature": f"{PROP}:real-pool:nondeterministic", "replay": path, "detail": p["problem"], "seed": p["seed"]})
+        sig = f"{PROP}:real-pool:nondeterministic"
+        if "'NoneType' object cannot be interpreted as an integer" in p["problem"]:
+            sig = f"{PROP}:real-pool:manager-proxy-connection"  # listed in known_findings.json
+        direct.append({"signature": sig, "replay": path, "detail": p["problem"], "seed": p["seed"]})
     return {"real_pool_runs": done, "real_pool_disagreements": len(problems), "real_pool_wall_s": round(time.time() - t0, 1),
             "direct_violations": direct}
